@@ -514,13 +514,13 @@ package storage
 //@   trusted
 //@   modifies storeState
 //@   ensures err != nil ==> result0 == nil
-//@   ensures err == nil ==> result0 != nil && fresh(result0)
+//@   ensures err == nil ==> result0 != nil && fresh(result0) && result0.reader != nil
 
 //@ func OpenRelation(dbName string, forceWALSync bool) (*RelationService, error)
 //@   props C17
 //@   modifies storeState, openStores, listLen, listAt, listPos, listOf
 //@   ensures[err; C17] err != nil ==> result0 == nil && openStores == old(openStores)
-//@   ensures[ok; C17] err == nil ==> result0 != nil && fresh(result0) && openStores == old(openStores) + 1 && result0.fs != nil && result0.wal != nil
+//@   ensures[ok; C17] err == nil ==> result0 != nil && fresh(result0) && openStores == old(openStores) + 1 && result0.fs != nil && result0.wal != nil && result0.wal.reader != nil
 
 //@ func CreateDB(dbName string) error
 //@   props C17
@@ -598,7 +598,7 @@ package storage
 
 // ---- relation service: LSN protocol (C02), error frames (C14), statement bracket (C13) ----
 
-//@ spec pred rsOK(rs *RelationService) { rs.fs != nil && cacheOK(rs.fs) && rs.wal != nil }
+//@ spec pred rsOK(rs *RelationService) { rs.fs != nil && cacheOK(rs.fs) && rs.wal != nil && rs.wal.reader != nil }
 //@ spec func lsn(rs *RelationService) uint64 { rs.fs._nextLSN }
 
 //@ func (b *BTree) insertKey(key uint32, nextLSN uint64, value []byte) error
@@ -666,15 +666,56 @@ package storage
 //@   modifies txn
 //@   ensures txn == 0
 
+// ---- write-ahead log (C02 C03) ----
+
+//@ func (w *WALEntry) encode() (*bytes.Buffer, error)
+//@   props C02 C03
+//@   ensures[buf] err == nil ==> result0 != nil && fresh(result0)
+
+//@ func (w *WALEntry) decode(buf *bytes.Buffer) error
+//@   props C02 C03
+//@   requires buf != nil
+//@   modifies w.WALOp, w.LSN, w.pageID, w.cellID, w.val, bufver(buf)
+
+//@ func (w *wal) read() (WALBatch, error)
+//@   props C02 C03
+//@   requires w.reader != nil
+//@   modifies storeState
+//@   ensures[tornTail; C03] !errIs(err, io.ErrUnexpectedEOF) && !errIs(err, io.EOF)
+//@   loop 1 invariant (ret == nil || fresh(ret)) && len(tupleLenBuf) == 4 && fresh(tupleLenBuf)
+
+// The log file as seen by flush: a ghost trace of write calls (walWrites of them so far, the k-th of wlen(k) bytes) and sync calls.
+//@ ghost var walWrites int
+//@ ghost var walSyncs int
+//@ ghost var wlen(k int) int
+//@ iface (r readWriteSyncCloser) Write(p []byte) (int, error)
+//@   props C03
+//@   trusted
+//@   modifies walWrites, wlen(walWrites), storeState
+//@   ensures walWrites == old(walWrites) + 1 && wlen(old(walWrites)) == len(p)
+//@   ensures forall k int :: k != old(walWrites) ==> wlen(k) == old(wlen(k))
+//@   ensures err == nil ==> result0 == len(p)
+//@ iface (r readWriteSyncCloser) Sync() error
+//@   props C03
+//@   trusted
+//@   modifies walSyncs, storeState
+//@   ensures walSyncs == old(walSyncs) + 1
+
 //@ func (w *wal) flush(batch WALBatch) error
 //@   props C02 C03
-//@   trusted
-//@   modifies storeState
+//@   requires w.reader != nil && (forall i int :: 0 <= i && i < len(batch) ==> batch[i] != nil)
+//@   modifies storeState, walWrites, walSyncs, wlen
+//@   ensures[all; C02 C03] result == nil ==> walWrites == old(walWrites) + 2*len(batch) && (w.forceSync ==> walSyncs == old(walSyncs) + len(batch))
+//@   ensures[framing; C03] result == nil ==> forall k int :: 0 <= k && k < len(batch) ==> wlen(old(walWrites) + 2*k) == 4
+//@   ensures[prefix; C03] walWrites <= old(walWrites) + 2*len(batch) && forall k int :: 0 <= k && old(walWrites) + 2*k < walWrites ==> wlen(old(walWrites) + 2*k) == 4
+//@   loop 1 invariant len(tupleLenBuf) == 4 && fresh(tupleLenBuf) && walWrites == old(walWrites) + 2*(rangeindex+1) && (w.forceSync ==> walSyncs == old(walSyncs) + rangeindex + 1)
+//@   loop 1 invariant forall k int :: 0 <= k && k <= rangeindex ==> wlen(old(walWrites) + 2*k) == 4
 //@ func (rs *RelationService) FlushWALBatch(batch WALBatch) error
-//@   props C02 C13
-//@   requires txn == 1 && rs.wal != nil
-//@   modifies storeState
+//@   props C02 C03 C13
+//@   requires txn == 1 && rs.wal != nil && rs.wal.reader != nil && (forall i int :: 0 <= i && i < len(batch) ==> batch[i] != nil)
+//@   modifies storeState, walWrites, walSyncs, wlen
 //@   ensures[held; C13] txn == 1
+//@   ensures[all; C02 C03] result == nil ==> walWrites == old(walWrites) + 2*len(batch)
 
 //@ func (rs *RelationService) getRelationFileOffset$1(cell *leafCell) (ScanAction, error)
 //@   props C01 C13
